@@ -36,8 +36,8 @@ from floatcmp import f2b, b2f  # noqa: E402
 from parallel import driver_parallel  # noqa: E402,F401
 import exedriver  # noqa: E402
 
-GEN = ['BSF', 'BSP', 'BAWF', 'BAWP', 'CrrLoopR']      # CrrLoopR (registry/crrloops.py): the LOOPS of crr_tree_val; BAWF / BAWP (tools/py2lean/registry/baw.py) import the Black-Scholes kernels BSF / BSP
-PROPS = ['FinVerif.Props.C12', 'FinVerif.Props.C12b', 'FinVerif.Props.C12c', 'FinVerif.Props.C12d', 'FinVerif.Props.C12e']
+GEN = ['BSF', 'BSP', 'BAWF', 'BAWP', 'CrrLoopR', 'FdLoopR']      # CrrLoopR (registry/crrloops.py): the LOOPS of crr_tree_val; BAWF / BAWP (tools/py2lean/registry/baw.py) import the Black-Scholes kernels BSF / BSP
+PROPS = ['FinVerif.Props.C12', 'FinVerif.Props.C12b', 'FinVerif.Props.C12c', 'FinVerif.Props.C12d', 'FinVerif.Props.C12e', 'FinVerif.Props.C12f']
 DRIVERS = ['FinVerif.Driver.C12']
 
 RULE = ('seeded parameter sets: S/K in [0.3,3] (half of them in [0.7,1.4]), t in {0.1,0.25,0.5,1,2}, r in '
